@@ -15,13 +15,18 @@ FUNCS = [VI + ":ELBO", VI + ":IWELBO", VI + ":PWake", VI + ":QWake", VI + ":adev
          SMC + ":ImportanceK.run_smc"]
 
 
-def record_expectation(E):
-    """expectation(f) -> object whose grad_estimate(key, args) runs f(*args) and records the loss value"""
+def record_expectation(E, diff_args=None):
+    """expectation(f) -> object whose grad_estimate(key, args) records the loss value.  The ADEV machinery differentiates the
+    loss FUNCTION with respect to its own parameters: the function is therefore evaluated at `diff_args` - fresh variables
+    standing for its parameters - not at the caller's argument values, so that a loss which takes part of its value from the
+    enclosing grad_estimate's arguments (a constant for the differentiation) does not meet the specification"""
     losses = []
 
     def expectation(I, f):
         def grad_estimate(I, key, args):
-            v = I.call(f, list(args), {})
+            at = list(diff_args) if diff_args is not None else list(args)
+            assert len(at) == len(list(args))
+            v = I.call(f, at, {})
             losses.append(v)
             return UVal(I.ctx.fn("adev_grad_estimate", U, U, U)(I.to_u(key), I.to_u(v)))
         class Rec:
@@ -60,12 +65,13 @@ def same_target_lemma(E, g, tr, obs, key2, args_t):
 @task("vi.elbo", props=["C30"], functions=FUNCS)
 def t_elbo(E):
     z3, T = E.z3, E.I.T
-    losses = record_expectation(E)
+    theta = E.real("theta")             # the loss function's own parameter (what ADEV differentiates with respect to)
+    theta_outer = E.real("theta_at_call")   # the value grad_estimate is called at: a constant for the differentiation
+    losses = record_expectation(E, diff_args=(theta,))
     qw, qc, ql, g, obs, make_target = setup(E)
     guide = E.opaque("guide", "SampleDistribution")
     k = key(E)
-    theta = E.real("theta")
-    ge = E.I.call(E.call(VI + ":ELBO", guide, make_target), [k, (theta,)], {})
+    ge = E.I.call(E.call(VI + ":ELBO", guide, make_target), [k, (theta_outer,)], {})
     split = E.ctx.fn("split", U, z3.IntSort(), z3.IntSort(), U)
     # keys: estimate_normalizing_constant splits, ChangeTarget.run_smc passes its key to prev.run_smc, which splits again
     k_ct = split(k.t, 2, 1)
@@ -87,21 +93,22 @@ def t_elbo(E):
 @task("vi.wake", props=["C30"], functions=FUNCS)
 def t_wake(E):
     z3, T = E.z3, E.I.T
-    losses = record_expectation(E)
+    theta = E.real("theta")             # the loss function's own parameter (what ADEV differentiates with respect to)
+    theta_outer = E.real("theta_at_call")   # the value grad_estimate is called at: a constant for the differentiation
+    losses = record_expectation(E, diff_args=(theta,))
     qw, qc, ql, g, obs, make_target = setup(E)
     post = E.opaque("posterior_approx", "SampleDistribution")
     prop = E.opaque("proposal", "SampleDistribution")
     k = key(E)
-    theta = E.real("theta")
     split = E.ctx.fn("split", U, z3.IntSort(), z3.IntSort(), U)
     s1, s2 = split(k.t, 3, 1), split(k.t, 3, 2)
     target = E.new(SP + ":Target", p=g, args=(theta,), constraint=obs)
     tu = E.I.to_u(target)
     sample = qc(post.t, s1, tu)
-    E.I.call(E.call(VI + ":PWake", post, make_target), [k, (theta,)], {})
+    E.I.call(E.call(VI + ":PWake", post, make_target), [k, (theta_outer,)], {})
     tr = T.gen_tr(g.t, s2, T.chm_or(obs.t, sample), E.I.to_u((theta,)))
     E.prove("C30.PWake.loss_is_minus_model_score_at_a_posterior_sample", E.eq(losses[0], SReal(-T.tr_score(tr))))
-    E.I.call(E.call(VI + ":QWake", prop, post, make_target), [k, (theta,)], {})
+    E.I.call(E.call(VI + ":QWake", prop, post, make_target), [k, (theta_outer,)], {})
     E.prove("C30.QWake.loss_is_minus_proposal_log_density_of_a_posterior_sample",
             E.eq(losses[1], SReal(-ql(prop.t, s2, sample, tu))))
     E.refutable("vi.wake", E.eq(losses[0], losses[1]))
@@ -110,14 +117,15 @@ def t_wake(E):
 @task("vi.iwelbo", props=["C30"], functions=FUNCS)
 def t_iwelbo(E):
     z3, T = E.z3, E.I.T
-    losses = record_expectation(E)
+    theta = E.real("theta")             # the loss function's own parameter (what ADEV differentiates with respect to)
+    theta_outer = E.real("theta_at_call")   # the value grad_estimate is called at: a constant for the differentiation
+    losses = record_expectation(E, diff_args=(theta,))
     qw, qc, ql, g, obs, make_target = setup(E)
     prop = E.opaque("proposal", "SampleDistribution")
     N = E.int("N", conc=True)
     E.assume(N.t >= 1)
     k = key(E)
-    theta = E.real("theta")
-    E.I.call(E.call(VI + ":IWELBO", prop, make_target, N), [k, (theta,)], {})
+    E.I.call(E.call(VI + ":IWELBO", prop, make_target, N), [k, (theta_outer,)], {})
     split = E.ctx.fn("split", U, z3.IntSort(), z3.IntSort(), U)
     k_ct = split(k.t, 2, 1)
     sub = lambda i: split(split(k_ct, 2, 1), N.t, i)
